@@ -575,7 +575,7 @@ func coqCase(c *Case) (string, map[string]int) {
 	st := map[string]int{}
 	ops := make([]string, 0, len(c.Ops))
 	outs := make([]string, 0, len(c.Ops))
-	var crashes, deepCrashes []string
+	var crashes, deepCrashes, excls []string
 	var fileChain, indexChain []int // best chain last written to the main files / under the last index
 	bestChain := func() []int {
 		var l []int
@@ -649,9 +649,10 @@ func coqCase(c *Case) (string, map[string]int) {
 				for f < len(x) && f < len(indexChain) && x[f] == indexChain[f] {
 					f++
 				}
-				return f-1 < len(indexChain)-1-d
+				return f < len(indexChain)-1-d // the chains differ below the load horizon of the tip under the index
 			}
 			flagged := deep(fileChain) || deep(newChain)
+			oldFile, oldIndex := fileChain, indexChain
 			var cos []crashObs
 			o, cos = r.crashExec(op, d)
 			if o.kind != "panic" {
@@ -669,6 +670,7 @@ func coqCase(c *Case) (string, map[string]int) {
 				}
 			}
 			if flagged {
+				excls = append(excls, fmt.Sprintf("(%d%%nat, (%s, %s, %s, %s))", len(ops), ints(oldFile), ints(oldIndex), ints(newChain), coqfmt.Z(int64(d))))
 				deepCrashes = append(deepCrashes, fmt.Sprintf("(%d%%nat, %s)", len(ops), coqfmt.List(items)))
 				st["crash_ops_after_deep_reorg"]++
 			} else {
@@ -731,18 +733,18 @@ func coqCase(c *Case) (string, map[string]int) {
 		}
 	}
 	if c.Crash {
-		mk := func(obs []string) string {
-			return fmt.Sprintf("(mkCCase (mkCfg %s 10000%%Z 10000%%Z 1) (%s)\n  %s\n  %s)", coqfmt.Z(int64(c.MaxDepth)),
-				r.coqHdr(c, 0), coqfmt.List(ops), coqfmt.List(obs))
+		mk := func(obs, ex []string) string {
+			return fmt.Sprintf("(mkCCase (mkCfg %s 10000%%Z 10000%%Z 1) (%s)\n  %s\n  %s\n  %s)", coqfmt.Z(int64(c.MaxDepth)),
+				r.coqHdr(c, 0), coqfmt.List(ops), coqfmt.List(obs), coqfmt.List(ex))
 		}
 		c.deepCoq = ""
 		if len(deepCrashes) > 0 {
-			c.deepCoq = mk(deepCrashes)
+			c.deepCoq = mk(deepCrashes, nil)
 		}
 		if c.CrashPart == "deep" {
-			return mk(deepCrashes), st
+			return mk(deepCrashes, nil), st
 		}
-		return mk(crashes), st
+		return mk(crashes, excls), st // the exclusions have to be justified in the kernel
 	}
 	s := fmt.Sprintf("mkCase %d (mkCfg %s 10000%%Z 10000%%Z 1) (%s)\n  %s\n  %s", c.Mask, coqfmt.Z(int64(c.MaxDepth)),
 		r.coqHdr(c, 0), coqfmt.List(ops), coqfmt.List(outs))
